@@ -599,7 +599,13 @@ def _g4(run, M, alg):
         raising = [o for o in outs if o.status == "raise"]
         got = set()
         for o in raising:
-            got.add(o.conds[-1].key())
+            # a raise under `any(..)` / `a or b` is a raise under each disjunct
+            la = o.conds[-1].single_atom() if o.conds else None
+            if la is not None and la[0] == "app" and la[1] == "or":
+                for d_ in la[2]:
+                    got.add(T.dec(d_).key())
+            else:
+                got.add(o.conds[-1].key())
         trivially_false = ne(A.ishape, A.ishape).key()
         trivially_false_o = ne(A.oshape, A.oshape).key()
         got -= {trivially_false, trivially_false_o}
